@@ -185,7 +185,7 @@ var c12Arches = map[string]struct {
 	"x32": {"x32", "X86_64", 0x40000000},
 }
 
-var c12NoTables = []string{"ppc", "ppc64", "ppc64le", "s390", "s390x", "mips", "mipsle", "mips64", "mips64n32", "mips64p32", "mipsel64", "mips64le", "mipsel64n32", "mips64p32le"}
+var c12NoTables = archWithoutTables
 
 func getInfoSafe(name string) (info *arch.Info, err error, pan any) {
 	defer func() { pan = recover() }()
@@ -239,9 +239,27 @@ func checkC12Arch(raw json.RawMessage) (ev.Result, error) {
 	if !isASCII(c.Name) && (strings.EqualFold(c.Name, low) || c12Folds(c.Name)) {
 		return ev.Result{Classes: []string{"unicode-fold-no-claim"}}, nil
 	}
+	if class, _ := archClass(c.Name); class != "no-tables" {
+		// a spelling whose status the property does not settle (near miss, alternative spelling, arbitrary text): it may be
+		// rejected, or accepted as a further alias - but then it must resolve to one of the five tables, complete and with
+		// the right metadata
+		res.Classes = append(res.Classes, "name-of-unsettled-status")
+		if err != nil {
+			if info != nil {
+				return res, fmt.Errorf("GetInfo(%q) returns an error together with an Info", c.Name)
+			}
+			return res, nil
+		}
+		for _, t := range oracle.AllTables {
+			if info == spec.ArchInfo(t) {
+				return res, nil
+			}
+		}
+		return res, fmt.Errorf("GetInfo(%q) returns, without error, an Info that is none of the five architectures with tables (%v)", c.Name, info)
+	}
 	res.Classes = append(res.Classes, "unsupported-or-unknown")
 	if err == nil || info != nil {
-		return res, fmt.Errorf("GetInfo(%q) returns an Info without error although the architecture has no syscall tables / is unknown", c.Name)
+		return res, fmt.Errorf("GetInfo(%q) returns an Info without error although the architecture has no syscall tables", c.Name)
 	}
 	res.NonTrivial = true
 	return res, nil
